@@ -9,7 +9,8 @@
 From Coq Require Import ZArith List QArith Qcanon Bool Arith Lia.
 From SG Require Import Base.QcUtil Base.PolyInt Model.Tensor Model.LocalGrids Model.LocalRules Proofs.TensorRule Proofs.LocalGridsBase
   Proofs.LocalGridsTrap Proofs.LocalGridsSimpson Proofs.LocalGridsMain Proofs.LocalGridsChecker
-  Proofs.QuadPoly Proofs.QuadAffine Proofs.QuadInterp Proofs.QuadCC Proofs.LocalGridsMix Proofs.LocalGridsFix.
+  Proofs.QuadPoly Proofs.QuadAffine Proofs.QuadInterp Proofs.QuadCC Proofs.LocalGridsMix Proofs.LocalGridsFix
+  Model.AlgTower Proofs.AlgTowerP Proofs.GaussTowerP Proofs.LejaSystem.
 Import ListNotations.
 Open Scope Qc_scope.
 
@@ -350,6 +351,97 @@ Theorem C08_fix_leja_slice_length : forall bnd a b s e l,
 Proof. exact leja_fx_slice_length. Qed.
 Print Assumptions C08_fix_leja_slice_length.
 
+(* ======================================================================================================
+   PHASE 3.  Exact algebraic nodes (Model/AlgTower.v): the rules are written once over abstract ring operations; at Qc they
+   are the model of the code, in the quadratic-extension tower F_l = Q(cos(pi/2^l)) resp. Q(sqrt(1/3)), Q(sqrt(3/5)) they
+   compute with the exact irrational nodes; equalities below are equalities of field elements (irrational parts vanish).
+   ====================================================================================================== *)
+
+(* ---- (1) Clenshaw-Curtis: the generic rule IS the code model; levels 1..4 exact up to degree N+1 with the exact nodes ---- *)
+Theorem C08_clenshaw_curtis_generic_is_code_model : forall npwb tab i k,
+  occ_factor qc_ops npwb tab i = cc_factor npwb (fun m => cheb_at qc_ops tab (2 * m)) i /\
+  occ_moment qc_ops npwb tab k
+  = apply1 (mono k) (map Qcopp (map (cheb_at qc_ops tab) (seq 0 npwb)))
+      (map (cc_factor npwb (fun m => cheb_at qc_ops tab (2 * m))) (seq 0 npwb)).
+Proof. intros. split; [apply occ_factor_is_cc_factor | apply occ_moment_is_rule_moment]. Qed.
+Print Assumptions C08_clenshaw_curtis_generic_is_code_model.
+
+(* levels 1..4 (3, 5, 9, 17 points): r_l = cos(pi/2^l) satisfies the node equation T_{N/2}(r) = 0 and the reference rule with
+   nodes -T_j(r_l) and the code's weight factors has ALL moments up to degree N+1 equal to the integrals over [-1,1].
+   Fixed levels (the tower is built level by level): a bounded statement in the level, exact in everything else. *)
+Theorem C08_clenshaw_curtis_algebraic_nodes_exact_bounded :
+  (node_equation F1 3 r1 = true /\ forall k, (k <= 3)%nat ->
+     occ_moment F1 3 (cheb_list F1 r1 (2 * (2 * 1) + 3)) k = oQ F1 (mint k (-(1)) 1)) /\
+  (node_equation F2 5 r2 = true /\ forall k, (k <= 5)%nat ->
+     occ_moment F2 5 (cheb_list F2 r2 (2 * (4 * 2) + 5)) k = oQ F2 (mint k (-(1)) 1)) /\
+  (node_equation F3 9 r3 = true /\ forall k, (k <= 9)%nat ->
+     occ_moment F3 9 (cheb_list F3 r3 (2 * (8 * 4) + 9)) k = oQ F3 (mint k (-(1)) 1)) /\
+  (node_equation F4 17 r4 = true /\ forall k, (k <= 17)%nat ->
+     occ_moment F4 17 (cheb_list F4 r4 (2 * (16 * 8) + 17)) k = oQ F4 (mint k (-(1)) 1)).
+Proof. exact (conj cc_tower_level1 (conj cc_tower_level2 (conj cc_tower_level3 cc_tower_level4))). Qed.
+Print Assumptions C08_clenshaw_curtis_algebraic_nodes_exact_bounded.
+
+(* degree N+2 is not integrated exactly: N+1 is the true degree of the code's rule on these levels *)
+Theorem C08_clenshaw_curtis_degree_sharp_bounded :
+  occ_exact_upto F1 3 r1 4 = false /\ occ_exact_upto F2 5 r2 6 = false /\ occ_exact_upto F3 9 r3 10 = false /\
+  occ_exact_upto F4 17 r4 18 = false.
+Proof. exact cc_tower_degree_sharp. Qed.
+
+(* the tower is the half-angle tower: r_{l+1}^2 = (1 + r_l)/2 *)
+Theorem C08_tower_generators :
+  omul F2 r2 r2 = oQ F2 Qchalf /\ omul F3 r3 r3 = (half_angle F2 r2, o0 F2) /\ omul F4 r4 r4 = (half_angle F3 r3, o0 F3).
+Proof. exact tower_generators. Qed.
+
+(* level 2 (5 points) with the exact nodes +-sqrt(1/2) on EVERY sub-box [s,e], degrees <= 5 *)
+Theorem C08_clenshaw_curtis_level2_algebraic_every_subbox : forall s e k, (k <= 5)%nat ->
+  occ_moment_box F2 5 (cheb_list F2 r2 (2 * (4 * 2) + 5)) s e k = oQ F2 (mint k s e).
+Proof. exact cc5_subbox_exact. Qed.
+Print Assumptions C08_clenshaw_curtis_level2_algebraic_every_subbox.
+
+(* ---- (2) Gauss-Legendre with 2 and 3 points (levels 0, 1), exact nodes -+sqrt(1/3); 0, -+sqrt(3/5): degree 2n-1 on EVERY sub-box ---- *)
+Theorem C08_gauss_legendre_2pt_exact_every_subbox : forall s e k, (k <= 3)%nat ->
+  ogl_moment G2 s e gl2_rule k = oQ G2 (mint k s e).
+Proof. exact gl2_subbox_exact. Qed.
+Theorem C08_gauss_legendre_3pt_exact_every_subbox : forall s e k, (k <= 5)%nat ->
+  ogl_moment G3 s e gl3_rule k = oQ G3 (mint k s e).
+Proof. exact gl3_subbox_exact. Qed.
+Print Assumptions C08_gauss_legendre_3pt_exact_every_subbox.
+(* the nodes are the roots of P_2, P_3; at Qc the generic map is gl_pts / gl_wts of the code model *)
+Theorem C08_gauss_legendre_node_equations :
+  oadd G2 (omul G2 (oQ G2 (qn 3)) (omul G2 (0, 1) (0, 1))) (oopp G2 (o1 G2)) = o0 G2 /\
+  oadd G3 (omul G3 (oQ G3 (qn 5)) (omul G3 (0, 1) (omul G3 (0, 1) (0, 1)))) (oopp G3 (omul G3 (oQ G3 (qn 3)) (0, 1))) = o0 G3.
+Proof. exact gl_node_equations. Qed.
+Theorem C08_gauss_legendre_generic_is_code_model : forall s e (rule : list (Qc * Qc)) k,
+  ogl_moment qc_ops s e rule k = apply1 (mono k) (gl_pts s e (map fst rule)) (gl_wts false s e (map snd rule)).
+Proof. exact ogl_moment_is_rule_moment. Qed.
+
+(* ---- (3) Leja: ANY solution of the linear system the code solves is the interpolatory rule ---- *)
+(* generic: every n, every n distinct nodes, every interval, every graded polynomial basis *)
+Theorem C08_moment_system_solution_is_interpolatory : forall xs ws s e phis, graded phis ->
+  (forall j, (j < length phis)%nat -> apply1 (Tensor.peval (nth j phis [])) xs ws = pint (nth j phis []) s e) ->
+  NoDup xs -> length ws = length xs -> length phis = length xs ->
+  ws = interp_weights xs s e /\
+  (forall p, (length p <= length xs)%nat -> apply1 (Tensor.peval p) xs ws = pint p s e).
+Proof.
+  intros xs ws s e phis G H Hnd Hl Hn. split.
+  - apply (system_solution_is_interpolatory xs ws s e phis G H Hnd Hl Hn).
+  - intros p Hp. apply (system_exact_poly xs ws s e phis G H (length phis)); [lia | rewrite Hn; exact Hp].
+Qed.
+Print Assumptions C08_moment_system_solution_is_interpolatory.
+
+(* the code's system (shifted Legendre basis, right-hand side e_0), rules with at most 13 points = Leja levels 0..6 *)
+Theorem C08_leja_solution_is_interpolatory_bounded : forall xs ws, (length xs <= 13)%nat -> NoDup xs -> length ws = length xs ->
+  (forall j, (j < length xs)%nat ->
+     dotQ (map (PolyInt.peval (nth j (shleg_list (length xs)) [])) xs) ws = if (j =? 0)%nat then 1 else 0) ->
+  ws = interp_weights xs 0 1 /\
+  (forall p, (length p <= length xs)%nat -> apply1 (Tensor.peval p) xs ws = pint p 0 1).
+Proof. exact leja_solution_is_interpolatory_bounded. Qed.
+Print Assumptions C08_leja_solution_is_interpolatory_bounded.
+
+Theorem C08_leja_system_ok_sound : forall xs ws tol, leja_system_ok xs ws tol = true ->
+  length xs = length ws /\ Forall (fun r => Qc_abs r <= tol) (leja_system_residuals xs ws).
+Proof. exact leja_system_ok_sound. Qed.
+
 (* ---- non-vacuity ---- *)
 Definition ex_dims : list dim1 :=
   [ mkdim (-3) 6 (-3#4) (3#2) 3;      (* interior sub-box of [-3,6], level 3 *)
@@ -448,4 +540,23 @@ Proof.
   - vm_compute. reflexivity.
   - apply gridm_exact; repeat constructor; try (vm_compute; lia).
   - vm_compute. congruence.
+Qed.
+
+(* ---- phase 3 non-vacuity ---- *)
+(* the Leja-type system on the nodes 0, 1/3, 1 of [0,1]: the interpolatory weights 0, 3/4, 1/4 solve it (residuals 0), other
+   weights do not *)
+Example C08_nonvacuous_leja_system :
+  let xs := [Q2Qc 0; Q2Qc (1#3); Q2Qc 1] in
+  leja_system_ok xs [Q2Qc 0; Q2Qc (3#4); Q2Qc (1#4)] 0 = true /\
+  leja_system_ok xs [Q2Qc (1#6); Q2Qc (2#3); Q2Qc (1#6)] (Q2Qc (1#100)) = false /\
+  map (map this) (shleg_list 3) = [[1]; [-1; 2]; [1; -6; 6]]%Q.
+Proof. vm_compute. repeat split. Qed.
+
+(* the 3-point Gauss rule on [1/4, 3/2] in Q(sqrt(3/5)): its outer nodes are irrational, x^5 is integrated exactly *)
+Example C08_nonvacuous_gauss_tower :
+  snd (ogl_node G3 (Q2Qc (1#4)) (Q2Qc (3#2)) (0, 1)) <> 0 /\
+  ogl_moment G3 (Q2Qc (1#4)) (Q2Qc (3#2)) gl3_rule 5 = (mint 5 (Q2Qc (1#4)) (Q2Qc (3#2)), 0) /\
+  mint 5 (Q2Qc (1#4)) (Q2Qc (3#2)) <> 0.
+Proof.
+  split; [vm_compute; congruence | split; [apply (gl3_subbox_exact _ _ 5); lia | vm_compute; congruence]].
 Qed.
